@@ -181,7 +181,7 @@ func main() {
 			"literal, a function with a list default) and two generated packages of 1-5 actions each on what they import (alias + index assignment, loops over nested " +
 			"lists, sorted/reversed of inner lists, +, +=, dict members, direct assignment that must fail), each followed by reads of everything; run on the real " +
 			"interpreter as B alone, A then B, B then A, and concurrently. distinct = distinct scenario texts; non-trivial = package A contains a write")
-		n := c.Scale(45, 2500)
+		n := c.Scale(45, 1200)
 		for i := 0; i < n; i++ {
 			r := c.Rng.Fork()
 			defs := genDefs(r)
@@ -197,6 +197,27 @@ func main() {
 				return acts
 			}
 			A, B := mk("a", false), mk("b", true)
+			if i < 4 {
+				// the four known leaks, once each in their smallest form, so that every run reproduces them
+				val := IntE(90 + i)
+				forced := func(pkg string) action {
+					v := pkg + "_w"
+					switch i {
+					case 0:
+						return action{tagNested, []*aspgen.Stmt{aspgen.Assign(v, E(aspgen.Index(aspgen.Ident("NESTED"), IntE(0)))), aspgen.IdxAssign(v, IntE(0), val)}, false}
+					case 1:
+						return action{tagSpare, []*aspgen.Stmt{aspgen.Assign(v, E(aspgen.Ident("FILT"), Bin("+", aspgen.List(IntE(90+len(pkg)+int(pkg[0]))))))}, false}
+					case 2:
+						return action{tagConst, []*aspgen.Stmt{aspgen.Assign(v, E(aspgen.Call("mk"))), aspgen.IdxAssign(v, IntE(0), val)}, false}
+					default:
+						return action{tagDflt, []*aspgen.Stmt{aspgen.Assign(v, E(aspgen.Call("dflt"))), aspgen.IdxAssign(v, IntE(0), val)}, false}
+					}
+				}
+				A, B = []action{forced("a")}, []action{forced("b")}
+				if i != 1 {
+					B = []action{{"", []*aspgen.Stmt{aspgen.Assign("b_z", IdE("N"))}, false}}
+				}
+			}
 			df := aspgen.NewFile("//defs:d", defs, true)
 			run := func(order string, skipA, skipB map[int]bool, conc bool) map[string]aspgen.Result {
 				files := []aspgen.File{df}
